@@ -202,3 +202,39 @@ for _i in range(1, 21):
     _k = "C%02d" % _i
     if _k not in PROPS:
         NOT_APPLICABLE[_k] = "not claimed yet: the Lean model and correspondence suite for this property are still being built (technique applies; see DESIGN.md §6)"
+
+# T1b: pure helper functions translated from /repo's source on every run
+# (harness/cmd/translate -> Jsonapi/Generated/Funcs.lean) and the theorems, one module per
+# group, stating that the translated definition IS the hand-written model's (or, for
+# deduceRoute, theorems about the translated definition itself). A property lists the groups
+# its model depends on; a change of one of these functions that alters its meaning breaks the
+# equality for every input at once, not only on the sampled ones.
+GEN = {
+    "GenC16": ["Gen_Rel_Invert_eq", "Gen_Rel_Normalize_eq", "Gen_Rel_String_eq", "Gen_relLess_eq"],
+    "GenC10": ["Gen_checkStr_eq", "Gen_checkInt_eq", "Gen_checkUint_eq", "Gen_checkBool_eq", "Gen_checkTime_eq"],
+    "GenC14": ["Gen_GetAttrType_eq", "Gen_GetAttrType_names", "Gen_GetAttrTypeString_kind", "Gen_GetAttrTypeString_nonEmpty",
+               "Gen_GetAttrType_String"],
+    "GenC03": ["Gen_buildSelfLink_eq", "Gen_buildRelationshipLinks_eq"],
+    "GenC07": ["Gen_deduceRoute_nil", "Gen_deduceRoute_take5", "Gen_deduceRoute_col", "Gen_deduceRoute_res",
+               "Gen_deduceRoute_related", "Gen_deduceRoute_self"],
+}
+GEN_WHAT = {
+    "GenC16": "Rel.Invert, Rel.Normalize, Rel.String and relLess",
+    "GenC10": "checkStr, checkInt, checkUint, checkBool and checkTime",
+    "GenC14": "GetAttrType and GetAttrTypeString",
+    "GenC03": "buildSelfLink and buildRelationshipLinks",
+    "GenC07": "deduceRoute",
+}
+GEN_USERS = {"C16": ["GenC16"], "C10": ["GenC10"], "C09": ["GenC10"], "C14": ["GenC14"], "C17": ["GenC14"], "C19": ["GenC14"],
+             "C03": ["GenC03"], "C04": ["GenC03"], "C07": ["GenC07"]}
+for _pid, _mods in GEN_USERS.items():
+    _c = PROPS[_pid]
+    _c["modules"] = list(_c.get("modules", [_pid])) + _mods
+    for _m in _mods:
+        _c["theorems"] = list(_c["theorems"]) + GEN[_m]
+        _c["level_text"] += (" Regenerated tie (T1b): " + GEN_WHAT[_m] + " are translated from the Go source to Lean definitions on every run and proved "
+                             + ("to have the stated route patterns and to read the first five fragments only" if _m == "GenC07" else "equal to the model's definitions for every input")
+                             + " (" + ", ".join(GEN[_m]) + ").")
+    _c["technique"] = ("Lean 4 theorems about a hand-written model; model tied to /repo by differential correspondence (Go harness vs compiled Lean driver), "
+                       "regenerated facts, and Lean definitions translated from the Go source of the pure helper functions on every run")
+    _c["level_note"] += " The translator harness/cmd/translate (T1b: a fixed subset of Go - see its header) is trusted to render the syntax tree faithfully."
